@@ -768,7 +768,6 @@ func firstLine(b []byte) string {
 
 var _ = psql.NewPersistence
 
-
 // c20ViaBastion drives a C10 request script through the real endpoint and compares the witness counters with the
 // outcomes: every request that names a listed, known log and is neither malformed nor pushed back is ONE attempt.
 func c20ViaBastion(t *testing.T, p *Plan) *Outcome {
